@@ -96,14 +96,15 @@ func init() {
 		technique: "deterministic simulation: seeded schedules + fragmentation over a simulated HTTP link (real net/http codecs), delivery oracle per call",
 	}
 	props["C11"] = &propCfg{
-		id: "C11", level: "fault_enumeration", design: "DESIGN.md §4 C11", modes: []string{"server-link-faults", "server-garbage", "client-faults"},
+		id: "C11", level: "fault_enumeration", design: "DESIGN.md §4 C11", modes: []string{"server-link-faults", "server-garbage", "client-faults", "ts-client-faults"}, needTS: true,
 		quick: tierCfg{worlds: 32, batchSize: 24, checks: 450, timeoutS: 300, env: []string{"VERIF_SWEEP=1", "VERIF_SWEEP_MAX=3"}},
 		thor:  tierCfg{worlds: 160, batchSize: 40, checks: 7200, timeoutS: 9000, env: []string{"VERIF_SWEEP=1", "VERIF_SWEEP_MAX=60"}},
 		genCfg: func(seed uint64, name string) gen.Config {
 			if seed%2 == 1 {
-				// custom decoders for annotated messages in the path of hostile bodies
-				return gen.Config{Seed: seed, Name: name, Allow: safeAllow(gen.AnnotationFeatures...), AnnService: true}
+				// custom decoders for annotated messages in the path of hostile bodies (Go only)
+				return gen.Config{Seed: seed, Name: name, Allow: safeAllow(gen.AnnotationFeatures...), AnnService: true, NoTS: true}
 			}
+			// the other half also gets its TS client generated: mode ts-client-faults
 			return gen.Config{Seed: seed, Name: name, Allow: safeAllow()}
 		},
 		rule: "server runs: a valid Go-client or contract-client request with one fault (truncate / reset / stall at a drawn body or header offset, duplicate delivery, drop, write error) placed inside the in-flight message, plus mutated bodies (truncated JSON, token swaps, duplicate keys, deep nesting, huge numbers, invalid UTF-8, invalid wire data) under 9 content types; client runs: rogue upstream responses and response-direction faults with virtual-clock deadlines; sweeps enumerate every truncation and reset offset of the base plan's body; distinct_nontrivial counts distinct (world, rpc, mode, codec family, fault or body kind, dispatched?, status) tuples on which an oracle was evaluated",
